@@ -150,3 +150,80 @@
         assert!(!w.header_written && !w.finished && w.lzma_writer.is_none());
         core::mem::forget(w);
     }
+
+    // ---------------------------------------------------------------- LZIPWriter::write orchestration (modular)
+    static mut STARTS: u32 = 0;
+    static mut MEMBERS: [(u64, u32); 4] = [(0, 0); 4];     // (data size, crc32) of each finished member
+    static mut MEMBER_N: usize = 0;
+    /// start_new_member by contract (body: C02.lzip.hist): a member is opened: payload writer installed, per-member
+    /// counters and CRC restarted. (ptr::write: the previous Option is None and must not run drop glue.)
+    fn start_member_stub<W: Write>(s: &mut LZIPWriter<W>) -> Result<()> {
+        unsafe {
+            STARTS += 1;
+            assert!(MEMBER_N as u32 + 1 == STARTS);          // never two open members
+            let inner = s.inner.take().expect("inner writer not set");
+            let w = crate::enc::verif_kani::lzma_new_zeroed(CountingWriter::new(inner), &s.options.lzma_options, false, true, None).ok().unwrap();
+            core::ptr::write(&mut s.lzma_writer, Some(w));
+        }
+        s.header_written = true;
+        s.current_member_uncompressed_size = 0;
+        s.crc_digest = CRC32.digest();
+        s.uncompressed_size = 0;
+        Ok(())
+    }
+    /// finish_current_member by contract: the open member is closed; its trailer carries the running CRC and data size
+    fn finish_member_stub<W: Write>(s: &mut LZIPWriter<W>) -> Result<()> {
+        unsafe {
+            assert!(MEMBER_N < 4 && STARTS as usize == MEMBER_N + 1);
+            let w = s.lzma_writer.take().expect("lzma writer not set");
+            let counting = crate::enc::verif_kani::take_inner(w);
+            s.inner = Some(counting.into_inner());
+            let dg = core::mem::replace(&mut s.crc_digest, CRC32.digest());
+            MEMBERS[MEMBER_N] = (s.uncompressed_size, dg.finalize());
+            MEMBER_N += 1;
+        }
+        s.header_written = false;
+        Ok(())
+    }
+
+    /// C02.lzip.split / C18.lzip / C07: the member-splitting logic of LZIPWriter::write for one call of ANY length
+    /// n <= 4500 (member size 4096 = dictionary size), then the closing of the last member: members are opened and closed
+    /// alternately, every member holds 1..=4096 bytes and all but the last exactly 4096, the members partition the input
+    /// in order, and each member's CRC and data size are those of exactly its own bytes.
+    #[kani::proof]
+    #[kani::unwind(4)]
+    //@ERR
+    #[kani::stub(LZIPWriter::start_new_member, start_member_stub)]
+    #[kani::stub(LZIPWriter::finish_current_member, finish_member_stub)]
+    #[kani::stub(crate::enc::lz::LZEncoder::fill_window, crate::enc::lzma2_writer::verif_kani::fill_window_stub)]
+    #[kani::stub(crate::enc::encoder::LZMAEncoder::encode_for_lzma1, crate::enc::lzma_writer::verif_kani::encode_for_lzma1_stub)]
+    fn c02_lzip_write_splits_members() {
+        unsafe { STARTS = 0; MEMBER_N = 0; crate::vk::pl_reset(1); }
+        let mut w = LZIPWriter::new(vk::Sink::<8>::new(), lzip_opts(4096, Some(4096)));
+        let n: usize = vk::any();
+        vk::assume(n >= 1 && n <= 4500);
+        let r = w.write(&DATA[..n]);
+        assert!(matches!(r, Ok(k) if k == n));
+        assert!(unsafe { crate::vk::PL_CUR_IN } == n as u64);        // every byte reached a payload writer exactly once
+        // close the last member the way finish() does
+        assert!(w.header_written);
+        assert!(finish_member_stub(&mut w).is_ok());
+        let m = unsafe { MEMBER_N };
+        assert!(m == (n + 4095) / 4096 && unsafe { STARTS } as usize == m);
+        let mut start = 0usize;
+        let mut i = 0;
+        while i < 3 {
+            if i < m {
+                let (len, crc) = unsafe { MEMBERS[i] };
+                let len = len as usize;
+                assert!(len >= 1 && len <= 4096, "member exceeds the configured member size");
+                assert!(i + 1 == m || len == 4096);
+                assert!(crc == CRC32.checksum(&DATA[start..start + len]), "member CRC is not the CRC of the member's own bytes");
+                start += len;
+            }
+            i += 1;
+        }
+        assert!(start == n);
+        crate::vcover!(m == 2);
+        core::mem::forget(w);
+    }
